@@ -119,7 +119,8 @@ def report(prop, args, targets, results, sres, seed, t0):
         paths += r["paths"]
         functions.append({"target": r["target"], "source_sha": r["source_hash"], "cases": r["cases"], "paths": r["paths"],
                           "obligations": len(r["obligations"]), "inlined_callees": r["inlined"], "callee_contracts_used": r["used_contracts"],
-                          "status": r["status"]})
+                          "status": r["status"], "body_statements": r.get("body_statements"), "body_covered": r.get("body_covered"),
+                          "uncovered_lines": r.get("uncovered_lines", [])})
         trusted.update(r["intrinsics"])
         assumptions.update(r["assumptions"])
         if r["status"] == "error":
